@@ -27,6 +27,21 @@ ENGINES['eloop'] = {
               'malloc of the repo objects (sim/alloc.c: accounting + injected failures)'],
 }
 
+ENGINES['ebuf'] = {
+    'src': ['harness/ebuf.c', 'harness/ebuf_dict.c'],
+    'sim_src': ['sim/alloc.c', 'sim/umem_sim.c'],
+    'repo_src': ['lib/upipe/ubuf_block_mem.c', 'lib/upipe/ubuf_mem_common.c', 'lib/upipe/ubuf_pic_mem.c',
+                 'lib/upipe/ubuf_pic_common.c', 'lib/upipe/ubuf_sound_mem.c', 'lib/upipe/ubuf_sound_common.c',
+                 'lib/upipe/ubuf_mem.c', 'lib/upipe/ubuf_pic.c', 'lib/upipe/uref_pic_flow.c',
+                 'lib/upipe/udict_inline.c'],
+    'track_alloc': True,
+    'real': ['include/upipe/ubuf_block.h', 'include/upipe/ubuf_block_common.h', 'include/upipe/ubuf_mem_common.h',
+             'lib/upipe/ubuf_block_mem.c', 'lib/upipe/ubuf_mem_common.c', 'lib/upipe/udict_inline.c', 'include/upipe/udict.h',
+             'include/upipe/upool.h'],
+    'stubs': ['buffer memory allocator (sim/umem_sim.c behind struct umem_mgr: accounting, red zones, injected failures)',
+              'malloc of the repo objects (sim/alloc.c: accounting + injected failures at allow-listed callers)'],
+}
+
 SC = ('interleavings are explored under sequential consistency at the yield points of DESIGN.md 2.1 '
       '(every uatomic operation, every plain ring-element access, every descriptor read/write)')
 
@@ -67,6 +82,37 @@ PROPS['C13'] = {
                     'restart is exercised on timers only (it is only specified for timers)'],
 }
 
+BUF_ASSUME = ['one simulated thread; the explored nondeterminism is the allocator (which allocation fails, inside which operation; '
+              'whether a pooled structure is recycled: pool depths 0/1/2/8) and the manager configuration (prepend, append, align, sub-offset)',
+              'operations whose validity the documentation leaves open (offset exactly at the end, empty results, negative offsets where not '
+              'documented) are not generated; out-of-range requests must be refused and leave every handle unchanged',
+              'allocation failures are injected only at callers that test the result (ubuf_block_mem_alloc_inner, ubuf_mem_shared_alloc_inner, umem)']
+PROPS['C03'] = {
+    'engine': 'ebuf', 'quick_time': 25, 'thorough_time': 600,
+    'rule': ('one case = a history of 10-60 operations on up to 6 block handles (alloc, append, insert, delete, truncate, resize, prepend, '
+             'splice, split, merge, copy, dup, free, accessor sweeps: size/read/peek/extract/iovec/scan/find/compare/equal/match) with '
+             'offsets and sizes drawn from {0, inside, segment boundary, negative, end, out of range}, plus allocation faults attached to '
+             'operations and a manager configuration. Distinct = distinct plan hash (every run executes its whole plan).'),
+    'assumptions': BUF_ASSUME,
+}
+PROPS['C02'] = {
+    'engine': 'ebuf', 'quick_time': 25, 'thorough_time': 600,
+    'rule': ('as C03 with map-for-write operations (15% of the plan): a granted write changes the byte string of that handle only, every '
+             'other handle must still read its own byte string; a handle that is the only owner of never-sliced memory must be granted. '
+             'Distinct = distinct plan hash.'),
+    'assumptions': BUF_ASSUME + ['picture and sound buffers are not driven by this check yet (block buffers only)'],
+}
+PROPS['C10'] = {
+    'engine': 'ebuf', 'quick_time': 25, 'thorough_time': 600,
+    'rule': ('one case = a history of 8-48 operations on up to 4 dictionaries (set of every base type, named and shorthand, values of '
+             '0..65000 octets, names that are prefixes of one another, set from the dictionary\'s own storage, delete, get, dup, import, copy, cmp, '
+             'iterate, free) with storage-growth failures attached to operations; initial sizes 0..69, pool depth and growth increments per run. '
+             'Distinct = distinct plan hash.'),
+    'assumptions': ['one simulated thread; the explored nondeterminism is the allocator (umem_realloc / umem_alloc failure inside an operation) and the manager configuration',
+                    'relaxation under an injected failure: a set that reports an allocation error may leave its key with the previous value or absent, every other key unchanged (DESIGN.md C10)',
+                    'udict structure allocation (unchecked in udict_inline_alloc) is never failed'],
+}
+
 TECH = 'deterministic simulation with fault injection: seeded search over schedules / fault sequences, reference-model oracle, minimised replay files'
 
 PROPS['C07'].update({
@@ -87,7 +133,16 @@ PROPS['C13'].update({
     'level_note': 'sampling, not enumeration; the event-loop back end is simulated (libev replaced); trusted base = sim/upump_sim.c and the automaton in harness/eloop.c',
     'design_ref': 'DESIGN.md section 5, C13'})
 
+for _p, _d in (('C02', 'C02'), ('C03', 'C03'), ('C10', 'C10')):
+    PROPS[_p].update({
+        'technique': 'deterministic simulation with fault injection: seeded operation histories on the real buffer / dictionary managers over a simulated allocator (failures at the k-th allocation of an operation, pool recycling), byte-string / typed-map reference model compared after every operation, minimised replay files',
+        'level_note': 'sampling, not enumeration; single simulated thread; trusted base = sim/umem_sim.c, sim/alloc.c and the models in harness/ebuf*.c',
+        'design_ref': 'DESIGN.md section 5, ' + _d})
+
 LEVEL_TEXT = {
+    'C03': 'Seeded histories of block operations against a plain byte-string model, with allocation failures injected inside operations and out-of-range arguments; every handle is re-read (random probe first, then segment by segment) after every operation. Found and fixed seven defects. Evidence, not proof.',
+    'C02': 'Same engine with write mappings: a granted write may only change the handle it was issued on; exclusive never-sliced memory must be writable. Evidence, not proof.',
+    'C10': 'Seeded histories of dictionary operations against a typed-map model, with storage-growth failures injected inside set/import/dup. Evidence, not proof.',
     'C13': 'Seeded exploration of operation histories on 1-3 pumps with up to 3 blockers each; after every operation the back-end activity must equal started && no blocker, every back-end call must be the expected one with the status in force, callbacks only run for active pumps, free notifies each outstanding blocker exactly once. Evidence, not proof.',
     'C07': 'Seeded exploration of interleavings of small client programs on the real ulifo/ufifo/upool at the granularity of single atomic operations and plain ring accesses; every history is checked for linearizability against a sequential model. Evidence, not proof: a clean batch of some millions of distinct schedules; found and fixed a real ABA defect in uring_fifo_pop.',
     'C08': 'Seeded exploration of producers/consumers sleeping on simulated event descriptors around the real uqueue; any quiescent state with work left is a lost wake-up. Found and fixed the counter-based wake-up defect; evidence, not proof.',
@@ -96,8 +151,8 @@ LEVEL_TEXT = {
 
 NOT_YET = 'not claimed yet: engine under construction (DESIGN.md section 10)'
 NOT_APPLICABLE = {
-    'C01': NOT_YET, 'C02': NOT_YET, 'C03': NOT_YET, 'C04': NOT_YET, 'C05': NOT_YET, 'C06': NOT_YET,
-    'C10': NOT_YET, 'C12': NOT_YET, 'C14': NOT_YET, 'C15': NOT_YET, 'C16': NOT_YET, 'C20': NOT_YET,
+    'C01': NOT_YET, 'C04': NOT_YET, 'C05': NOT_YET, 'C06': NOT_YET,
+    'C12': NOT_YET, 'C14': NOT_YET, 'C15': NOT_YET, 'C16': NOT_YET, 'C20': NOT_YET,
     'C11': 'pure arithmetic on eight integer fields of one uref: no schedule, clock, fault or second party for a simulator to vary (DESIGN.md section 6)',
     'C17': 'NAL conversion / exp-Golomb are pure functions of their input; the framers need bitstream h264/h265 headers that are absent from the sandbox (DESIGN.md section 6)',
     'C18': 'bit writer/readers are pure functions of (fields, buffer size, segmentation); nothing blocks, allocates, times out or is shared (DESIGN.md section 6)',
